@@ -146,7 +146,7 @@ class Ctx:
                                       "wall_s": round(r.wall, 2)})
         return rejected
 
-    def check_events(self, vectors, lane="P", module="Trace", cfg="Trace.cfg", case_of=None, pid=None):
+    def check_events(self, vectors, lane="P", module="Trace", cfg="Trace.cfg", case_of=None, pid=None, shards=None):
         """replay + validate + judge in one go. case_of(event) -> hashable abstract case or None (trivial)."""
         ev = self.replay(vectors, lane)
         if case_of:
@@ -156,7 +156,7 @@ class Ctx:
                     self.distinct.add(c)
         if ev and len(self.samples) < 6:
             self.samples.append(ev[self.rng.randrange(len(ev))])
-        rej = self.validate(ev, module=module, cfg=cfg)
+        rej = self.validate(ev, module=module, cfg=cfg, shards=shards)
         self.judge(rej, pid=pid)
         return ev, rej
 
